@@ -126,3 +126,14 @@ func findDocs(coll lungo.ICollection, filter interface{}, opts ...*options.FindO
 	}
 	return out, nil
 }
+
+func toDocs(a bson.A) []bson.D {
+	var out []bson.D
+	for _, v := range a {
+		out = append(out, asD(v))
+	}
+	return out
+}
+
+func toFilters(a bson.A) []bson.D { return toDocs(a) }
+
